@@ -38,6 +38,12 @@ class Model:
                           and not c.func.attr.startswith('__') and c.func.attr != '_parse_error' and self.mod.method(self.f.cls, c.func.attr) is not None})
         fn, _inl = normalize.inline_helpers(self.f, only=local_defs + gens + helpers)
         fn = normalize.expand_quantifiers(fn, self.mod)
+        # named groups of states (`headings = (first_heading, ...)`) and named conditions are read through; a call through a bound
+        # method chosen in the branches of an if is the direct call in each branch
+        fn, _al = normalize.propagate_aliases(fn, in_loops=True, pure=normalize._reads_only, select=lambda name, v: (
+            (isinstance(v, (ast.Tuple, ast.List, ast.Set)) and v.elts and all(isinstance(e, ast.Name) for e in v.elts))
+            or isinstance(v, (ast.Compare, ast.BoolOp)) or (isinstance(v, ast.UnaryOp) and isinstance(v.op, ast.Not))))
+        fn = normalize.sink_branch_bound_calls(fn)
         set_parents(fn)
         self.fnode = fn
         self.consts = {}
